@@ -278,6 +278,44 @@ CHECKS["C31"] = _bounded(
   "ordinary tables are direct.",
   "bounded; classification of stored actions written from the statement", "5/C31")
 
+CHECKS["C05"] = _bounded(
+  "Run-time contract after every bundle (rolled-back ones included): every formula column equals "
+  "what a NEW engine computes from the same metadata and data columns only (load + Calculate); "
+  "formulas from a grammar over the shapes the statement lists (refs, reflists, lookups with "
+  "CONTAINS/order_by, $group, PREVIOUS/NEXT/RANK, cross-table), volatile functions excluded.",
+  "bounded; the random action mix excludes RemoveColumn/RemoveTable/ModifyColumn(type|isFormula)/"
+  "ReplaceTableData/summary creation (covered by 8 fixed witness histories only) because several "
+  "independent genuine defects make nearly every such history fail; known findings in "
+  "known_findings.d/C05.json", "5/C05")
+CHECKS["C06"] = _bounded(
+  "Run-time contract on Engine._update_loop under a ghost permutation of the real "
+  "_make_sorted_work_items result (lookup nodes kept first): same final formula values and same "
+  "multiset of stored actions as under the identity order; all permutations when <= 120, sampled "
+  "otherwise; cyclic documents included.",
+  "bounded; known finding: order-dependent results on cycles through error-swallowing formulas "
+  "or self-keyed lookups", "5/C06")
+CHECKS["C07"] = _bounded(
+  "Run-time contract after every successful bundle: fetch -> reply encoding -> marshal -> database "
+  "form -> the real main.table_data_from_db -> fresh engine + Calculate emits no stored actions "
+  "and reports the same data.",
+  "bounded; the database form is emulated from DocStorage._encodeValue (Node is not run); known "
+  "findings: decoded errors read as NoneType (#10), values that do not survive the encoding",
+  "5/C07")
+CHECKS["C18"] = _bounded(
+  "Exhaustive over all reference graphs of k <= 3 formula columns (2 + 16 + 512 graphs) and all "
+  "256 cross-row graphs for k = 2, in load and modify modes, under every evaluation order: "
+  "terminates without internal error, self-dependent cells hold CircularRefError, others their "
+  "normal value (spec: graph reachability); k = 4 (5) sampled.",
+  "bounded but exhaustive for the stated k", "5/C18")
+CHECKS["C19"] = _bounded(
+  "Run-time contract on gencode.GenCode.make_module and on the engine: only the column with an "
+  "invalid formula holds errors and other columns keep their values; a valid formula's value "
+  "equals an independent tokenize/ast translation ($name -> rec.name outside strings/comments, "
+  "last expression returned) evaluated with exec; all texts of length <= 3 over 12 characters, "
+  "special cases, grammar / mutated / random texts.",
+  "bounded; ambiguous texts checked for isolation only; known finding: texts that parse but do "
+  "not compile break the shared module", "5/C19")
+
 NOT_APPLICABLE = {
   "C30": "quantifies over interpreter configurations (PYTHONHASHSEED) and relates two separate "
          "processes; no pre/postcondition on a call inside one process can mention the hash seed "
